@@ -116,7 +116,7 @@ func (x *Exec) RegistryRun(steps int) {
 		if x.rng.Intn(4) == 0 {
 			regType(order[x.rng.Intn(i+1)])
 		}
-		if c := count(); c > 0 && (x.rng.Intn(6) == 0 || c >= max-1 || c%64 <= 1) {
+		if c := count(); c > 0 && (x.rng.Intn(6) == 0 || c >= limit-7 || c%64 <= 1) {
 			ids := []int{c - 1}
 			if c > 2 {
 				ids = []int{x.rng.Intn(c - 1), c - 1}
